@@ -87,7 +87,11 @@ def cases(tier):
     # exact DFT lengths only (2 and 4): with float64 twiddles the parabolic refinement is a symbolic 1e-16 instead of 0 and
     # the integer parts taken by the estimator's % are no longer determined (reported as inconclusive, so left out)
     shapes = {(4, 4): [(0, 0), (1, 0), (3, 2), (-1, 1), (1, 3)], (4, 2): [(0, 0), (1, 1), (3, 0), (-1, 1)], (2, 4): [(0, 0), (1, 3), (0, -1)]}
-    ups = (1, 2, 4) if quick else (1, 2, 3, 4, 8)
+    if not quick:
+        shapes[(4, 4)] += [(2, 1), (0, 3), (-1, -1), (3, 3), (1, 1)]
+        shapes[(4, 2)] += [(1, 0), (-1, 0), (3, 1)]
+        shapes[(2, 4)] += [(1, 0), (1, 1), (0, 3), (1, -1)]
+    ups = (1, 2, 4)          # 3 and 8 did not finish (the checked argmax is not unique on their upsampling grids and forking explodes)
     for shape, shifts in shapes.items():
         for s in shifts:
             for up in ups:
@@ -104,7 +108,7 @@ def run(check, tier):
     check.add_functions("imaging_utils.cross_correlation_shift", "dft_upsample", "align_images_fourier_torch", "upsampled_correlation_torch",
                         "dftUpsample_torch")
     check.bounds.update(shapes="4x4, 4x2, 2x4 (exact DFT lengths; non-square included)", shifts="integer shifts anywhere in the cell incl. beyond half the size and (0, 0)",
-                        upsample_factors="1, 2, 4 (quick) / 1, 2, 3, 4, 8", symbolic="all spectral magnitudes p_k in [0.1, 1]")
+                        upsample_factors="1, 2, 4", symbolic="all spectral magnitudes p_k in [0.1, 1]")
     check.assumptions += ["restricted input family (delta image, reference = magnitudes p_k with a linear phase ramp) given in Fourier space",
                           "every argmax comparison / floor / round / mod is decided uniquely by the solver on the path (otherwise inconclusive)",
                           "real arithmetic; non-exact DFT lengths and upsampling kernels use float64 constants, claims asked with tolerance 1e-6"]
